@@ -88,7 +88,24 @@ def SimT (lo hi i : Nat) (e : Expr F) : Prop :=
       Done pf tree bodies (Ival lo hi) lp pbn 1 nodes nodes' newR ∧
       ∃ b, nodes'[i]? = some (some b) ∧ b.rootEndInstruction = cp.ends
 
+/-- the same for a subtree that is not an expression of its own (the `SideEffect` node with its body): `g root cur` is what it
+appends to the layout state -/
+def SimF (lo hi i : Nat) (g : Nat → Nat → LState F → LState F) : Prop :=
+  ∀ (crj root cur : Nat) (data : BState F) (nodes : Nodes) (RS S : Array Nat) (s : LState F)
+    (lp : Option (Nat × Definition)) (cp : Ex) (pbn : BuildNode),
+    Pre tree nodes lo hi i cur lp cp pbn → DataEq data s → cur < s.jumps.size →
+    ∃ (k : Nat) (data' : BState F) (nodes' : Nodes) (RS' : Array Nat) (newR : List (RRec F)),
+      Steps pf tree crj k ⟨data, nodes, RS, S.push i⟩ ⟨data', nodes', RS', S⟩ ∧ k + wsum newR ≤ 2 * (hi - lo) ∧
+      DataEq data' (g root cur s) ∧
+      RS'.toList = RS.toList ++ (newR.map (·.idx)).reverse ∧
+      (g root cur s).pending = newR.map (·.root) ++ s.pending ∧
+      Done pf tree bodies (Ival lo hi) lp pbn 1 nodes nodes' newR ∧
+      ∃ b, nodes'[i]? = some (some b) ∧ b.rootEndInstruction = cp.ends
+
 variable {pf tree bodies}
+
+theorem SimF.toT {lo hi i : Nat} {e : Expr F} (h : SimF pf tree bodies lo hi i (fun root cur s => emit root cur e s)) :
+    SimT pf tree bodies lo hi i e := h
 
 theorem setNodeIdx_ok {nodes : Nodes} {r : Nat} (h : r < nodes.size) (b : BuildNode) (site : String) :
     setNodeIdx nodes r b site = .ok (putNode nodes r b) := by
